@@ -593,6 +593,9 @@ class RenameDetector:
         assert change.old is not None and change.new is not None
         if change.old.sha == change.new.sha:
             return False
+        assert change.old.mode is not None and change.new.mode is not None
+        if S_ISGITLINK(change.old.mode) or S_ISGITLINK(change.new.mode):
+            return False  # Git links don't exist in this repo.
         assert change.old.sha is not None
         assert change.new.sha is not None
         old_obj = self._store[change.old.sha]
